@@ -1,6 +1,7 @@
 import TrustVerif.Lemmas.StExec
 import TrustVerif.Lemmas.StFrames
 import TrustVerif.Lemmas.StWitness
+import TrustVerif.Lemmas.StExtFrames
 
 /-!
 # C01 — every scan cycle ends in success or a value-dependent fault, never a crash
@@ -165,6 +166,35 @@ negative and `coerce_loop_value` answers `TypeMismatch`. -/
 theorem c01_counterexample_for_ulint :
     Wit.forUlintCast.accepted = true ∧
     (Wit.firstCycle Wit.forUlintCast).1 = some (.fault .TypeMismatch .forCoerceNegative) := by
+  decide +kernel
+
+/-! ## Stage S4: FUNCTION calls -/
+
+/-- **Every call pops exactly the frame it pushed — every program, every exit path.**  Model of
+`eval/mod.rs: call_function` (`Model/StExt.lean`): a fault while binding the arguments (nothing
+pushed yet), while initialising the locals, inside the body (including nested and recursive
+calls), while collecting the outputs, a `RETURN`, a stray EXIT/CONTINUE, or an exhausted budget —
+the frame stack after the call has the length it had before.  No typing hypothesis. -/
+theorem c01_call_frames_balanced (fs : List StExt.FuncDef) (fuel : Nat) (ctl : StExt.Ctl)
+    (σ : StExt.XStore) (fd : StExt.FuncDef) (args : StExt.XArgs) :
+    (StExt.callFunction fs fuel ctl σ fd args).1.frames.length = σ.frames.length :=
+  (StExt.xexec_frames fs fuel).2.2.2.1 ctl σ fd args
+
+/-- … and so does every expression evaluation and every scan cycle of a program with FUNCTIONs. -/
+theorem c01_frames_balanced_s4 (p : StExt.XProgram) (fuel : Nat) (st : StExt.XRunState) :
+    (StExt.xcycle p fuel st).1.store.frames.length = st.store.frames.length :=
+  StExt.xcycle_frames p fuel st
+
+/-- The S4 model computes: `d := F0(pa0 := 7); d := d + F0(8);` leaves `d = DInt 15`, no frame. -/
+example : Wit.callSample.accepted = true ∧
+    Wit.firstXCycle Wit.callSample = (none, [("d", .i .dint 15)], 0) := by decide +kernel
+
+/-- **Counterexample (empty argument list).**  `d := F0()` for a FUNCTION whose only input has a
+default is accepted (a formal call for the checker) and faults with `InvalidArgumentCount`
+(a positional call for `prepare_bindings`). -/
+theorem c01_counterexample_call_empty_args :
+    Wit.callEmptyArgs.accepted = true ∧
+    (Wit.firstXCycle Wit.callEmptyArgs).1 = some (.fault .InvalidArgumentCount .callArgCount) := by
   decide +kernel
 
 /-- The full-strength statement over the accepted set does not hold of the model of the code as
